@@ -12,9 +12,10 @@ FX(n) == CASE n = 1 -> T1
            [] n = 6 -> <<"and", T1, <<"not", T2>>>>
            [] n = 7 -> <<"or", <<"not", T1>>, <<"and", T2, T3>>>>
            [] n = 8 -> <<"not", <<"or", T1, T2>>>>
-NS(n) == CASE n \in {1, 2, 3} -> 3 [] n \in {4, 6, 8} -> 1 [] OTHER -> 2
+           [] n = 9 -> <<"and", T1, <<"untagged">>>>
+NS(n) == CASE n \in {1, 2, 3} -> 3 [] n \in {4, 6, 8, 9} -> 1 [] OTHER -> 2
 Cfg(m, n) == [id |-> m * 10 + n, min |-> m, fx |-> FX(n), ns |-> NS(n)]
-AllConfigs == { Cfg(m, n) : m \in 0..5, n \in 1..8 }
-StmtConfigsQ == { Cfg(m, n) : m \in {0, 2}, n \in {1, 4} }
-StmtConfigsT == { Cfg(m, n) : m \in {0, 3}, n \in {1, 4, 7} }
+AllConfigs == { Cfg(m, n) : m \in 0..5, n \in 1..9 }
+StmtConfigsQ == { Cfg(m, n) : m \in {0, 2}, n \in {1, 4, 9} }
+StmtConfigsT == { Cfg(m, n) : m \in {0, 3}, n \in {1, 4, 7, 9} }
 =============================================================================
